@@ -816,6 +816,46 @@ func main() {
 	// the final one; the logged status / size must be what the client received
 	oneXX(run, r)
 
+	// 7d. forced schedule on the buffer pool (logger.go:124-143): while logger 1 is inside
+	// w.Write(line), another request is logged through logger 2 (the pool is shared by all
+	// loggers); the bytes handed to writer 1 must still be line 1 when its Write returns
+	{
+		toks := tokensOf("$request_uri $response_status $response_body_size $header.X-Id $upstream_addr")
+		var got2 bytes.Buffer
+		l2, err2 := logger.New(&got2, formatOf(toks))
+		var e2 *logger.Event
+		var during string
+		w1 := writerFunc(func(p []byte) (int, error) {
+			l2.Log(e2) // the other request completes while this write is in progress
+			during = string(p)
+			return len(p), nil
+		})
+		l1, err1 := logger.New(w1, formatOf(toks))
+		if err1 != nil || err2 != nil {
+			run.Violation(-1, "logger.New rejects a valid format", formatOf(toks))
+		} else {
+			bad := 0
+			n := run.Scale(300, 3000)
+			for i := 0; i < n; i++ {
+				e1 := genEvent(r, true, true)
+				e2 = genEvent(r, true, true)
+				e1.Request.RequestURI = "/one/" + strings.Repeat("a", r.Intn(80))
+				e2.Request.RequestURI = "/two/" + strings.Repeat("b", r.Intn(80))
+				got2.Reset()
+				l1.Log(e1)
+				want1, _ := refLine(toks, e1)
+				want2, _ := refLine(toks, e2)
+				if during != want1 || got2.String() != want2 {
+					bad++
+				}
+			}
+			if bad > 0 {
+				run.Violation(-1, fmt.Sprintf("log buffer reused before its write completed: %d of %d lines changed under the writer while another request was logged", bad, n), nil)
+			}
+			extra += 2 * n
+		}
+	}
+
 	// 8. concurrent logging through one logger and the shared buffer pool: every line intact, once
 	{
 		toks := tokensOf("$request_uri $response_status $response_body_size $header.X-Id $response_time_us")
